@@ -19,6 +19,19 @@ where
     }
 
     let size = matrix.height;
+    // A pivot is numerically zero relative to the size of the entries: elimination of an
+    // exactly singular matrix leaves a rounding residue of a few eps * |entries|, which an
+    // absolute threshold of eps misses from 4x4 on (and which wrongly refuses tiny matrices)
+    let mut scale = 0.0_f64;
+    for row in 0..size {
+        for col in 0..size {
+            let magnitude = matrix[row][col].abs();
+            if magnitude > scale {
+                scale = magnitude;
+            }
+        }
+    }
+    let threshold = f64::EPSILON * size as f64 * scale;
     let mut lu = matrix.clone();
     let mut permutation: Arr2D<f64> = Arr2D::identity(size);
 
@@ -42,7 +55,7 @@ where
             permutation.swap_rows(pivot_row, i);
         }
         // Check for singularity BEFORE division
-        if lu[i][i].abs() < f64::EPSILON {
+        if lu[i][i].abs() <= threshold {
             return Err(SolverError::SingularMatrix);
         }
 
